@@ -16,6 +16,8 @@ VARIABLE l
 Check(e) ==
     CASE e.kind = "simplify" -> SimplifyContract(e)
       [] e.kind = "create" -> CreateContract(e)
+      [] e.kind = "getvalue" -> GetValueContract(e)
+      [] e.kind = "derived" -> DerivedContract(e)
       [] OTHER -> Verdict(<<"unknown_event_kind">>, <<>>, -1)
 
 Report(e) ==
